@@ -33,7 +33,7 @@ REWRITES = {
 try:
     with open(os.path.join(VERIF, "rewrites.json")) as f:
         for k, v in json.load(f).items():
-            REWRITES[k] = {ik: tuple(iv) for ik, iv in v.items()}
+            REWRITES.setdefault(k, {}).update({ik: (iv if ik.startswith("@") else tuple(iv)) for ik, iv in v.items()})
 except FileNotFoundError:
     pass
 
@@ -65,7 +65,16 @@ def checks():
 
 def rewrite_imports(src, mapping, relpath):
     out = src
+    # "@insert_before": [[anchor regex (one whole line), line to insert], ...] adds build-time hook
+    # calls (the hook function lives in an overlay-only file of the package)
+    for anchor, line in mapping.get("@insert_before", []):
+        pat = re.compile(anchor, re.M)
+        if len(pat.findall(out)) != 1:
+            raise SystemExit2("rewrite: anchor %r does not occur exactly once in %s" % (anchor, relpath))
+        out = pat.sub(lambda m: line + "\n" + m.group(0), out, count=1)
     for imp, (alias, shim) in mapping.items():
+        if imp.startswith("@"):
+            continue
         pat = re.compile(r'^(\s*)(?:[A-Za-z_][A-Za-z0-9_]*\s+)?"' + re.escape(imp) + r'"\s*$', re.M)
         new, n = pat.subn(lambda m: '%s%s "%s/%s/%s"' % (m.group(1), alias, MOD, SHIMROOT, shim), out, count=1)
         if n != 1:
